@@ -12,6 +12,8 @@ From TS Require Proofs.C15_GoItem Proofs.C15_GoFile.
 From TS Require Import Spec.C15RenderScPy.
 From TS Require Proofs.C15_ScalaItem.
 From TS Require Proofs.C15_PythonItem.
+From TS Require Import Spec.C15RenderPyFile.
+From TS Require Proofs.C15_PythonFile.
 Import ListNotations.
 From TS Require Props.C15.
 
@@ -462,3 +464,35 @@ Goal forall (uc : unicode) (cfg : py_config),
     c15_contained C15py LCode (mark (c15_file_pieces C15py parts)) = true.
 Proof. exact Props.C15.C15_py_item_line_free. Qed.
 Print Assumptions Props.C15.C15_py_item_line_free.
+Goal forall (uc : unicode), unicode_ok uc -> forall (cfg : py_config),
+  c15_mappings_plain C15py (py_type_mappings cfg) = true ->
+  c15_py_version_ok (py_version cfg) = true ->
+  forall pd text,
+  forallb c15_py_item_ok (items_of pd) = true ->
+  forallb c15_py_item_typevars_ok (items_of pd) = true ->
+  py_generate uc cfg pd = Ok text ->
+  let header := if py_no_version_header cfg then [] else [c15_py_header_line (py_version cfg)] in
+  exists items parts,
+    topsort (items_of pd) = Ok items /\ Permutation items (items_of pd) /\
+    text = text_of (c15_file_pieces C15py parts) /\
+    docs_of (c15_file_pieces C15py parts) = header ++ map (c15_site_text C15py) (flat_map c15_py_item_sites items) /\
+    c15_contained C15py LCode (mark (c15_file_pieces C15py parts)) =
+      forallb (c15_site_ok C15py) (flat_map c15_py_item_sites items).
+Proof. exact Props.C15.C15_py_file. Qed.
+Print Assumptions Props.C15.C15_py_file.
+Goal forall (uc : unicode), unicode_ok uc -> forall (cfg : py_config),
+  c15_mappings_plain C15py (py_type_mappings cfg) = true ->
+  c15_py_version_ok (py_version cfg) = true ->
+  forall pd text,
+  forallb c15_py_item_ok (items_of pd) = true ->
+  forallb c15_py_item_typevars_ok (items_of pd) = true ->
+  Forall (fun d => safe_line eol_lf_cr d = true) (flat_map c15_item_docs (items_of pd)) ->
+  py_generate uc cfg pd = Ok text ->
+  let header := if py_no_version_header cfg then [] else [c15_py_header_line (py_version cfg)] in
+  exists items parts,
+    topsort (items_of pd) = Ok items /\ Permutation items (items_of pd) /\
+    text = text_of (c15_file_pieces C15py parts) /\
+    docs_of (c15_file_pieces C15py parts) = header ++ map (c15_site_text C15py) (flat_map c15_py_item_sites items) /\
+    c15_contained C15py LCode (mark (c15_file_pieces C15py parts)) = true.
+Proof. exact Props.C15.C15_py_file_line_free. Qed.
+Print Assumptions Props.C15.C15_py_file_line_free.
